@@ -460,7 +460,7 @@ func (c *Client) opendir(ctx context.Context, path string) (string, error) {
 		}
 		return handle, nil
 	case sshFxpStatus:
-		return "", normaliseError(unmarshalStatus(id, data))
+		return "", statusError(id, data)
 	default:
 		return "", unimplementedPacketErr(typ)
 	}
@@ -500,7 +500,7 @@ func (c *Client) Lstat(p string) (os.FileInfo, error) {
 		}
 		return fileInfoFromStat(attr, path.Base(p)), nil
 	case sshFxpStatus:
-		return nil, normaliseError(unmarshalStatus(id, data))
+		return nil, statusError(id, data)
 	default:
 		return nil, unimplementedPacketErr(typ)
 	}
@@ -535,7 +535,7 @@ func (c *Client) ReadLink(p string) (string, error) {
 		}
 		return filename, nil
 	case sshFxpStatus:
-		return "", normaliseError(unmarshalStatus(id, data))
+		return "", statusError(id, data)
 	default:
 		return "", unimplementedPacketErr(typ)
 	}
@@ -705,7 +705,7 @@ func (c *Client) open(path string, pflags uint32) (*File, error) {
 		}
 		return &File{c: c, path: path, handle: handle}, nil
 	case sshFxpStatus:
-		return nil, normaliseError(unmarshalStatus(id, data))
+		return nil, statusError(id, data)
 	default:
 		return nil, unimplementedPacketErr(typ)
 	}
@@ -749,7 +749,7 @@ func (c *Client) stat(path string) (*FileStat, error) {
 		attr, _, err := unmarshalAttrs(data)
 		return attr, err
 	case sshFxpStatus:
-		return nil, normaliseError(unmarshalStatus(id, data))
+		return nil, statusError(id, data)
 	default:
 		return nil, unimplementedPacketErr(typ)
 	}
@@ -773,7 +773,7 @@ func (c *Client) fstat(handle string) (*FileStat, error) {
 		attr, _, err := unmarshalAttrs(data)
 		return attr, err
 	case sshFxpStatus:
-		return nil, normaliseError(unmarshalStatus(id, data))
+		return nil, statusError(id, data)
 	default:
 		return nil, unimplementedPacketErr(typ)
 	}
@@ -807,7 +807,7 @@ func (c *Client) StatVFS(path string) (*StatVFS, error) {
 
 	// the resquest failed
 	case sshFxpStatus:
-		return nil, normaliseError(unmarshalStatus(id, data))
+		return nil, statusError(id, data)
 
 	default:
 		return nil, unimplementedPacketErr(typ)
@@ -980,7 +980,7 @@ func (c *Client) RealPath(path string) (string, error) {
 		}
 		return filename, nil
 	case sshFxpStatus:
-		return "", normaliseError(unmarshalStatus(id, data))
+		return "", statusError(id, data)
 	default:
 		return "", unimplementedPacketErr(typ)
 	}
@@ -2277,6 +2277,15 @@ func (f *File) Sync() error {
 
 // normaliseError normalises an error into a more standard form that can be
 // checked against stdlib errors like io.EOF or os.ErrNotExist.
+// statusError decodes a status reply to a request that expects a value in its reply.
+// An OK status carries no value, so it is reported as an error rather than as (zero value, nil).
+func statusError(id uint32, data []byte) error {
+	if err := normaliseError(unmarshalStatus(id, data)); err != nil {
+		return err
+	}
+	return errors.New("sftp: unexpected SSH_FX_OK status in reply to a request that expects a value")
+}
+
 func normaliseError(err error) error {
 	switch err := err.(type) {
 	case *StatusError:
